@@ -210,6 +210,47 @@ def run(tier, seed):
                                           % (cap1, cap2, tag, k, got, "recomputed" if cnt[tag] > before else "not recomputed",
                                              list(cacher.cache.keys()), ref), "cap": cap})
                 break
+    # mutable arguments with a content-based key (the documented use: series / frames hashed by content): the caller edits
+    # the SAME object in place between calls; the wrapper must answer for the contents the argument has now
+    nmut = 0
+    for cap in (1, 2, 4):
+        for trial in range(6 if tier == "quick" else 40):
+            nmut += 1
+            cnt = [0]
+
+            def total(xs):
+                cnt[0] += 1
+                return ("sum", sum(xs), len(xs))
+            w = lru_cache(lambda xs: tuple(xs), cap)(total)
+            data = [rng.randrange(5) for _ in range(3)]
+            other = [9, 9]
+            seen = []          # reference: content keys by recency
+            for step in range(12):
+                act = rng.choice(["same", "same", "edit", "append", "other", "copy"])
+                if act == "edit":
+                    data[rng.randrange(len(data))] = rng.randrange(50, 60)
+                elif act == "append":
+                    data.append(rng.randrange(5))
+                arg = other if act == "other" else (list(data) if act == "copy" else data)
+                key = tuple(arg)
+                before = cnt[0]
+                try:
+                    got = w(arg)
+                except Exception as e:  # noqa
+                    got = "raised " + type(e).__name__
+                miss = key not in seen
+                if key in seen:
+                    seen.remove(key)
+                seen.append(key)
+                del seen[:-cap]
+                if got != ("sum", sum(arg), len(arg)) or (cnt[0] > before) != miss:
+                    if len(fails) < 20:
+                        fails.append({"property": "C20", "signature": "lru-mutable-argument",
+                                      "what": "list argument edited in place between calls (key = tuple of its contents, max_length %d): the call with contents %s "
+                                              "returned %s, the wrapped function gives %s; %s" % (cap, list(arg), got, ("sum", sum(arg), len(arg)),
+                                                                                                 "recomputed" if cnt[0] > before else "not recomputed"),
+                                      "cap": cap, "step": step})
+                    break
     resps = Driver().batch(reqs)
     for (cap, calls, keymod), real, resp in zip(hist, reals, resps):
         if canon(resp) != canon(real):
@@ -224,7 +265,8 @@ def run(tier, seed):
             "disagreements": disagreements, "oracle_failures": fails,
             "distribution": {"histories": len(hist), "with_eviction": evictions, "max_len_exhaustive": maxlen,
                              "histories_with_falsy_results": nfalsy, "histories_with_colliding_hashes": nexo,
-                             "reentrant_histories": nrec, "multi_wrapper_histories": nmulti}}
+                             "reentrant_histories": nrec, "multi_wrapper_histories": nmulti,
+                             "mutable_argument_histories": nmut}}
 
 
 if __name__ == "__main__":
